@@ -30,6 +30,7 @@ import random
 from fractions import Fraction
 
 from core import proto
+from . import common
 from .common import case, exc_code, ordinal_instance, strict
 
 ID = "C19"
@@ -565,6 +566,9 @@ def _call(alts, profile, mult):
     neither a voter nor an alternative of the instance, number of non-finite values]"""
     from preflibtools.properties.subdomains.ordinal.euclidean import is_one_euclidean
     inst = ordinal_instance([(strict(r), mu) for r, mu in zip(profile, mult)], data_type="soc", alts=alts)
+    salt = common.salt_of([alts, profile, mult])
+    if salt % 4 == 0:       # call / in-place edit / call: the same object held a decoy profile of the same shape first
+        inst, _ = common.prime_stale(inst, [lambda i: _lp_guard(is_one_euclidean, i)], salt // 4)
     try:
         res = _lp_guard(is_one_euclidean, inst)
     except Exception as e:  # classified by the judge; an exception is a failure for every in-domain input
